@@ -613,6 +613,11 @@ class Runner:
         self.tainted = False         # a non-atomic failure left the hooks outside every ledger
         self.stale = False           # C08 already reported hooks != reachability in this history
         self.shadow_default = False  # an unhooked default was "removed" on first assignment
+        # NoSelfReach failed AND what the real code did at this op is / is not what the documented
+        # maintainer algorithm (snapshot dispatch, walks in the current heap) yields: True / False;
+        # None = not evaluated for this op
+        self.f10_class = None
+        self.last_pop = None         # notifier populations at the end of the previous op
         if self.eq_case:
             self.tags.add("eq-classes")
         if self.w.variant:
@@ -764,6 +769,66 @@ class Runner:
         if k in ("six", "sxu"):
             return ["sr" if x in c else "sa"] + p[1:]
         return ["sr"] + p[1:]
+
+    # ---- the F10 class: what the maintainers of the pinned tree do, replayed on the populations
+    def maint_snapshot(self, o, name):
+        """The trait maintainers on o.name as call_notifiers will copy them: [(hid, target, graph)]."""
+        from traits.observation._observer_change_notifier import ObserverChangeNotifier
+        from traits.observation import _has_traits_helpers as HH
+        t = o._trait(name, 0)
+        out = []
+        for nt in ((t._notifiers(False) or []) if t is not None else []):
+            if isinstance(nt, ObserverChangeNotifier) and nt.observer_handler is HH.observer_change_handler:
+                d = self.w.describe(nt)
+                out.append((d[2], d[3], d[4]))
+        return out
+
+    def live(self, c):
+        dead = self.w.dead
+        return collections.Counter({k: n for k, n in c.items()
+                                    if base(k[2] if k[1] == "u" else k[3]) not in dead and n > 0})
+
+    def predict_snapshot(self, pop, snap, old, new):
+        """observer_change_handler (_has_traits_helpers.py:74-112) for every maintainer of the SNAPSHOT,
+        in order, on the populations `pop`: the graph below the old value is removed as the CURRENT heap
+        shows it (a NotifierNotFound is swallowed, the failed removal having rolled itself back), then
+        the graph below the new value is added.  None: some walk raises."""
+        from traits.api import Undefined
+        from traits.trait_base import Uninitialized
+        w = self.w
+        P = collections.Counter(pop)
+        for hid, tid, g in snap:
+            if base(hid) in w.dead or tid < 0:
+                continue
+            if old is not None and old is not Undefined and old is not Uninitialized:
+                items = collections.Counter()
+                if not w.spec_walk(g, old, (hid, tid), items):
+                    return None
+                if all(P[k] >= n for k, n in items.items()):
+                    P = P - items
+            if new is not None and new is not Undefined and new is not Uninitialized:
+                items = collections.Counter()
+                if not w.spec_walk(g, new, (hid, tid), items):
+                    return None
+                P = P + items
+        return P
+
+    def classify_selfreach(self, snap, old, new, notified):
+        """After an assignment in a history where NoSelfReach has failed: do the populations differ from
+        the from-scratch walk, and if so, are they what the documented algorithm leaves (the F10 class)?"""
+        if not self.selfreach or not self.check_reach() or self.last_pop is None or snap is None \
+                or self.shadow_default:
+            return
+        _, pop = self.w.population()
+        if self.live(pop) == self.live(self.w.spec_population(self.ledger)):
+            return
+        try:
+            pred = self.predict_snapshot(self.last_pop, snap if notified else [], old, new)
+        except Exception:
+            pred = None
+        if pred is not None:
+            self.f10_class = self.live(pred) == self.live(pop)
+            self.tags.add("selfreach:as-documented" if self.f10_class else "selfreach:NOT-as-documented")
 
     def check_selfreach(self, info):
         """NoSelfReach fails when a maintained child graph, walked from an old or new
@@ -1221,8 +1286,12 @@ class Runner:
     def reach_hit(self, kind, what):
         if self.known_cause:
             sig = self.known_cause
-        elif self.selfreach:
+        elif self.selfreach and self.f10_class is not False:
+            # (f10_class None: a container mutation / an op the replay does not cover)
             sig = SIG_F10
+        elif self.selfreach:
+            # NoSelfReach failed, but the hooks are NOT what the maintainers of the pinned tree leave
+            sig = "hooks-differ-from-reachability:%s:%s:self-reach-not-as-documented" % (kind, self.cur_kind)
         elif self.del_remat:
             sig = SIG_DEL
         elif self.shadow_default:
@@ -1303,6 +1372,8 @@ class Runner:
             status = "ok"
             self.pre_spec = None
             self.cur_canon = None
+            self.f10_class = None
+            snap = None
             try:
                 if self.cur_kind in ("obs", "unobs"):
                     status = self.observe(op)
@@ -1314,6 +1385,10 @@ class Runner:
                             self.pre_spec = w.spec_population(self.ledger)
                     self.set_changed = True
                     was_set = False
+                    if self.cur_kind in ("set", "setl", "setd", "sets", "get") and pre is not None:
+                        p = op.split()
+                        snap = self.maint_snapshot(w.pool[int(p[1])], p[2])
+                        get_unset = p[2] not in w.pool[int(p[1])].__dict__
                     if self.cur_kind in ("set", "seti", "setl", "setd", "sets", "del"):
                         p = op.split()
                         o = w.pool[int(p[1])]
@@ -1353,6 +1428,17 @@ class Runner:
                     if pre is not None and self.check_reach():
                         # the old/new subtrees in the heap AFTER the mutation
                         self.check_selfreach(pre)
+                        if self.selfreach and snap is not None and status == "ok":
+                            from traits.trait_base import Uninitialized
+                            p = op.split()
+                            new = w.pool[int(p[1])].__dict__.get(p[2])
+                            if self.cur_kind == "get":
+                                self.classify_selfreach(snap, Uninitialized, new, get_unset)
+                            else:
+                                # the maintainers run whenever ctraits sees a change: identity, or always
+                                # under comparison_mode none (ctraits.c:2439, :2563-2565)
+                                self.classify_selfreach(snap, self.old_value, new,
+                                                        CMP_MODE.get(p[2]) == "none" or self.old_value is not new)
             except Skip:
                 status = "err Other"
             self.old_value = None
@@ -1377,6 +1463,7 @@ class Runner:
                                         "every registration was removed but notifiers remain",
                                         after_op=op, population=nstr))
                 self.tainted = True
+            self.last_pop = pop
             outs.append("%s D{%s} P{%s} N{%s}" % (status, dstr, pstr, nstr))
         return " ; ".join(outs)
 
@@ -2256,6 +2343,68 @@ def history_cont(rng, maxops=12):
     while len(g.ops) < total:
         g.ops.append(g.cont_op(c) if rng.random() < 0.85 else g.mutation())
     return header(g, gen_dflts(rng, n)) + ";".join(g.ops[:maxops + 2])
+
+
+def history_cycle(rng, maxops=12):
+    """A CYCLE THROUGH THE ROOT of length 2-3 over one kind of link (child / ichild / nchild, or kids
+    lists), observed with a chain of that link at least as long as the cycle (so the same trait is the
+    link at several depths of the expression; ':' and '.' mixed; terminal `value`), the registration made
+    before, between or after the assignments that close the cycle; then each link of the cycle is cut
+    (None / emptied), re-pointed to an object outside or inside the cycle, and put back."""
+    g = Gen(rng)
+    n = g.n
+    L = rng.choice([2, 2, 3])
+    cyc = [0] + rng.sample(range(1, n), L - 1)
+    kind = rng.choice(["child", "child", "child", "ichild", "nchild", "kids", "kids"])
+    K = rng.randint(L, L + 2)
+    if kind == "kids":
+        links = [seq(t("kids", rng.random() < 0.6), ("li", rng.random() < 0.6, False)) for _ in range(K)]
+    else:
+        links = [t(kind, rng.random() < 0.5) for _ in range(K)]
+    es = " ".join(rpn_of(seq(*(links + [t("value")]))))
+    lists = {}
+
+    def link(i, to):
+        """o_i -> to (an identity, or N)"""
+        o = cyc[i]
+        if kind != "kids":
+            return "set %d %s %s" % (o, kind, to)
+        c = g.fresh()
+        g.conts[c] = "l"
+        g.attached[(o, "kids")] = c
+        lists[o] = c
+        return "setl %d kids %d %s" % (o, c, "[]" if to == "N" else "[%s]" % to)
+
+    order = list(range(L))
+    rng.shuffle(order)
+    build = [link(i, str(cyc[(i + 1) % L])) for i in order]     # container identities ascend in op order
+    at = rng.randint(0, L)
+    hid = rng.choice([0, 0, 0, 10])
+    build.insert(at, "obs %d 0 %s" % (hid, es))
+    g.ops += build
+    if rng.random() < 0.2:
+        g.ops.append("obs 1 %d %s" % (rng.choice(cyc), es))
+    total = rng.randint(L + 3, maxops)
+    while len(g.ops) < total:
+        i = rng.randrange(L)
+        o = cyc[i]
+        nxt = str(cyc[(i + 1) % L])
+        x = rng.random()
+        if x < 0.35:
+            to = "N"
+        elif x < 0.6:
+            to = str(g.obj())
+        elif x < 0.9:
+            to = nxt
+        else:
+            g.ops.append(g.mutation())
+            continue
+        if kind == "kids" and o in lists and rng.random() < 0.6:
+            c = lists[o]
+            g.ops.append("lc %d" % c if to == "N" else rng.choice(["ls %d 0 %s" % (c, to), "la %d %s" % (c, to)]))
+        else:
+            g.ops.append(link(i, to))
+    return header(g) + ";".join(g.ops[:maxops + 2])
 
 
 def history_const(rng, maxops=10):
